@@ -372,7 +372,7 @@ Proof.
 Qed.
 
 (* ---- at most once (both shapes of the code) ---- *)
-Theorem at_most_once c msgs k sched s :
+Theorem run_at_most_once c msgs k sched s :
   NoDup msgs -> run c (init msgs k) sched = Some s ->
   NoDup (map fst (log s)) /\ incl (map fst (log s)) msgs.
 Proof.
@@ -422,7 +422,7 @@ Proof.
   - exists lc. auto.
 Qed.
 
-Theorem exactly_once c msgs k sched s :
+Theorem run_exactly_once c msgs k sched s :
   run c (init msgs k) sched = Some s -> terminal c s -> closed s = false ->
   Permutation msgs (map fst (log s)).
 Proof.
@@ -435,7 +435,7 @@ Qed.
    the connection is open there is a current loop that is none of the blocked ones, has not been told to
    stop, has not exited, is not itself blocked, and is either at its select (ready for the next message)
    or able to move ---- *)
-Theorem never_stalls c msgs k sched s :
+Theorem run_never_stalls c msgs k sched s :
   run c (init msgs k) sched = Some s -> closed s = false ->
   exists lc, nth_error (loops s) (cur s) = Some lc /\ l_done lc = false /\ l_pc lc <> PExit /\
     (forall m r ops, l_pc lc <> PWait m r ops) /\
@@ -462,7 +462,7 @@ Theorem nested_returns c msgs k sched s :
   forall l lp m r ops, nth_error (loops s) l = Some lp -> l_pc lp = PWait m r ops -> ~ In r msgs.
 Proof.
   intros HR HT Hop l lp m r ops Hn Hpc Hin.
-  pose proof (exactly_once _ _ _ _ _ HR HT Hop) as HP.
+  pose proof (run_exactly_once _ _ _ _ _ HR HT Hop) as HP.
   assert (Hd : delivered r s = true).
   { unfold delivered. apply existsb_exists. eapply Permutation_in in Hin; [|exact HP].
     apply in_map_iff in Hin as (e & E & Hin). exists e. split; auto. rewrite E. apply Z.eqb_refl. }
@@ -696,7 +696,7 @@ Proof. split; cbn; auto. intros [|[|i]] lp H Hne; cbn in *; try discriminate. co
 
 (* in the repaired code, when no replacement request races with the hand-over of a message to its handler,
    messages are dispatched in arrival order: every schedule, every handler program (blocking or not) *)
-Theorem in_order c msgs k sched s :
+Theorem run_in_order c msgs k sched s :
   fixed c = true -> run c (init msgs k) sched = Some s -> calm c (init msgs k) sched = true ->
   exists rest, msgs = map fst (log s) ++ rest.
 Proof.
@@ -712,12 +712,103 @@ Proof.
 Qed.
 
 (* complete run, connection open: the dispatch log IS the arrival sequence *)
-Theorem in_order_complete c msgs k sched s :
+Theorem run_in_order_complete c msgs k sched s :
   fixed c = true -> run c (init msgs k) sched = Some s -> calm c (init msgs k) sched = true ->
   terminal c s -> closed s = false -> map fst (log s) = msgs.
 Proof.
-  intros Hf HR HC HT Hop. destruct (in_order _ _ _ _ _ Hf HR HC) as [rest E].
-  pose proof (exactly_once _ _ _ _ _ HR HT Hop) as HP.
+  intros Hf HR HC HT Hop. destruct (run_in_order _ _ _ _ _ Hf HR HC) as [rest E].
+  pose proof (run_exactly_once _ _ _ _ _ HR HT Hop) as HP.
   apply Permutation_length in HP. rewrite E in HP at 1. rewrite app_length in HP.
   destruct rest; [now rewrite app_nil_r in E|]. cbn in HP. lia.
+Qed.
+
+(* ---- the code before the repair (F14): arrival order is NOT preserved, although no handler blocks and
+   the only replacement request comes from the handler of the current loop itself (so the run is calm) ---- *)
+Definition f14_cfg : cfg := mkCfg 1 false [(1, [HReplace])].
+Definition f14_sched : list act :=
+  let L0 := ALoop 0 AltQueue in let L1 := ALoop 1 AltQueue in
+  [APush; L0; L0; L0; L0;      (* loop 0 dispatches message 1, whose handler calls TryToReplaceLoop: loop 1 is started *)
+   APush; APush;               (* messages 2 and 3 arrive *)
+   L0; L0;                     (* loop 0 returns from the handler, re-locks, goes back to its select *)
+   L0;                         (* its loopDone is closed AND the queue is readable: select may take the queue: message 2 *)
+   L1; L1; L1;                 (* loop 1 takes message 3 and dispatches it *)
+   L0; L0;                     (* loop 0 dispatches message 2 *)
+   L1; L1; L0; L0; ALoop 0 AltDone].
+
+Theorem run_in_order_refuted :
+  exists c msgs k sched s,
+    fixed c = false /\ run c (init msgs k) sched = Some s /\ calm c (init msgs k) sched = true /\
+    NoDup msgs /\ (forall m, existsb (fun h => match h with HNested _ => true | _ => false end) (hp c m) = false) /\
+    quiescent c s = true /\ closed s = false /\
+    map fst (log s) = [1; 3; 2] /\ msgs = [1; 2; 3] /\ commits s = [1; 3; 2].
+Proof.
+  exists f14_cfg, [1; 2; 3], 0%nat, f14_sched.
+  eexists. split; [reflexivity|]. split; [vm_compute; reflexivity|]. split; [vm_compute; reflexivity|].
+  split; [repeat constructor; cbn; intuition lia|].
+  split.
+  { intro m. unfold hp. change (progs f14_cfg) with [(1, [HReplace])]. unfold lookup. destruct (1 =? m); reflexivity. }
+  repeat split; vm_compute; reflexivity.
+Qed.
+
+(* and the same schedule cannot even be run in the repaired code: after its re-lock the replaced loop exits *)
+Lemma f14_sched_fixed_exits :
+  run (mkCfg 1 true [(1, [HReplace])]) (init [1; 2; 3] 0) f14_sched = None.
+Proof. vm_compute. reflexivity. Qed.
+
+(* ------------------------------------------------------------------ *)
+(* The model satisfies the property as written in Reader/Spec.v *)
+
+Definition waiting_list (s : st) : list (Z * Z * bool) :=
+  flat_map (fun lp => match l_pc lp with PWait m r _ => [(m, r, false)] | _ => [] end) (loops s).
+
+Definition obs_of (msgs : list Z) (s : st) (nb : bool) : obs :=
+  mkObs msgs (map fst (log s)) (negb (closed s)) true nb (waiting_list s).
+
+Lemma count_notin m l : ~ In m l -> count m l = O.
+Proof.
+  induction l as [|x r IH]; intro H; auto. cbn. destruct (x =? m) eqn:E.
+  - apply Z.eqb_eq in E. subst. exfalso. apply H. now left.
+  - apply IH. intro Hin. apply H. now right.
+Qed.
+
+Lemma NoDup_count m l : NoDup l -> (count m l <= 1)%nat.
+Proof.
+  induction 1 as [|x r Hni Hnd IH]; cbn; [lia|]. destruct (x =? m) eqn:E; auto.
+  apply Z.eqb_eq in E. subst. rewrite count_notin by auto. lia.
+Qed.
+
+Lemma mem_In m l : mem m l = true <-> In m l.
+Proof.
+  unfold mem. rewrite existsb_exists. split.
+  - intros (x & Hin & E). apply Z.eqb_eq in E. now subst.
+  - intro H. exists m. split; auto. apply Z.eqb_refl.
+Qed.
+
+Lemma subseq_prefix a b : subseq a (a ++ b) = true.
+Proof. induction a as [|x a IH]; cbn; [now destruct b|]. now rewrite Z.eqb_refl. Qed.
+
+Theorem model_satisfies_spec c msgs k sched s nb :
+  fixed c = true -> NoDup msgs ->
+  run c (init msgs k) sched = Some s -> terminal c s -> closed s = false ->
+  (nb = true -> calm c (init msgs k) sched = true) ->
+  holds (obs_of msgs s nb) = true.
+Proof.
+  intros Hf Hnd HR HT Hop Hnb.
+  destruct (run_at_most_once _ _ _ _ _ Hnd HR) as [Hnd2 Hincl].
+  pose proof (run_exactly_once _ _ _ _ _ HR HT Hop) as HP.
+  unfold holds. repeat (apply andb_true_iff; split).
+  - unfold at_most_once. cbn. apply forallb_forall. intros m _. apply Nat.leb_le. now apply NoDup_count.
+  - unfold only_accepted. cbn. apply forallb_forall. intros m Hm. apply mem_In. now apply Hincl.
+  - unfold none_dropped. cbn. rewrite Hop. cbn. apply forallb_forall. intros m Hm. apply mem_In.
+    eapply Permutation_in; eauto.
+  - unfold in_order. cbn. destruct nb; auto. cbn.
+    destruct (run_in_order _ _ _ _ _ Hf HR (Hnb eq_refl)) as [rest E]. rewrite E. apply subseq_prefix.
+  - unfold never_stalls. cbn. rewrite Hop. cbn. apply forallb_forall. intros [[m r] ret] Hin.
+    unfold waiting_list in Hin. apply in_flat_map in Hin as (lp & Hlp & Hin).
+    destruct (l_pc lp) as [ | | | |m' r' ops| | ] eqn:Epc; cbn in Hin; try contradiction.
+    destruct Hin as [Hin|[]]. injection Hin as -> -> <-.
+    apply In_nth_error in Hlp as [l Hn].
+    apply orb_true_iff. left. apply negb_true_iff.
+    destruct (mem r msgs) eqn:Em; auto. apply mem_In in Em.
+    exfalso. eapply nested_returns; eauto.
 Qed.
